@@ -8,6 +8,8 @@ Items:
   ('val', value)      attribute / :lang / :contains value: identifier, "string" or 'string'
   ('kw', text)        ASCII case-insensitive keyword (pseudo-class names, even/odd/n/of, ltr/rtl, i/s)
   ('num', text)       digits, rendered literally
+  ('cname', value)    reference to a custom pseudo-class; value is the name without the colon ('--' + rest).
+                      The same renderer (render_name) spells the keys of a `custom=` map.
 """
 
 GAPS = ['', '', ' ', '  ', '\n', '\t', '/**/', ' /* x */', '/*x*/ ', ' /**/ ', '\r\n', '\f', '/* * / */', '\n  ', ' /*a*//*b*/']
@@ -69,6 +71,36 @@ def valid_ident(v):
     return ident_start_ok(v[0]) and all(ident_cont_ok(c) for c in v[1:])
 
 
+def render_name(r, v, level, stats=None):
+    """A custom pseudo-class name, ':' + v with v = '--' + rest, as written in a pattern or as a key of
+    the `custom=` map.  The two leading dashes are what makes the token a custom name and stay
+    literal; every other code point is an ordinary identifier character and is spelled like one
+    (literal, backslash-char, the hex forms of esc_char).  The name is a pseudo-class name, i.e. ASCII
+    case-insensitive, so at level 1 every ASCII letter is first put in a random case: capitals and
+    small letters both occur literally, backslash-escaped and hex-escaped.  Level 0: v as given,
+    escaping only what must be escaped.  `stats` (a dict) counts what was produced."""
+    if not v.startswith('--'):
+        raise ValueError(v)
+    rest = v[2:]
+    if level:
+        rest = ''.join((c.swapcase() if (c.isascii() and c.isalpha() and r.random() < 0.4) else c) for c in rest)
+    out = [':--']
+    for i, c in enumerate(rest):
+        nxt = rest[i + 1] if i + 1 < len(rest) else None
+        lit_ok = ident_cont_ok(c)
+        if lit_ok and (level == 0 or r.random() > 0.3):
+            out.append(c)
+        elif level:
+            e = esc_char(r, c, nxt, level)
+            if stats is not None and c.isascii() and c.isalpha():
+                kind = ('hex' if is_hex(e[1]) and e[1] != c else 'char') + ('_upper' if c.isupper() else '_lower')
+                stats[kind] = stats.get(kind, 0) + 1
+            out.append(e)
+        else:
+            out.append(f'\\{ord(c):x} ' if (is_hex(c) or c in '\r\n\f' or ord(c) < 32) else '\\' + c)
+    return ''.join(out)
+
+
 def render_string(r, v, quote, level):
     out = [quote]
     for i, c in enumerate(v):
@@ -89,7 +121,7 @@ def render_string(r, v, quote, level):
     return ''.join(out)
 
 
-def render(items, r=None, level=0):
+def render(items, r=None, level=0, stats=None):
     """level 0 = canonical spelling (no optional whitespace, one space for descendant, minimal
     escapes, double quotes, lower case); level 1 = random spelling."""
     out = []
@@ -108,6 +140,8 @@ def render(items, r=None, level=0):
             out.append(it[1])
         elif k == 'ident':
             out.append(render_ident(r, it[1], level))
+        elif k == 'cname':
+            out.append(render_name(r, it[1], level, stats))
         elif k == 'val':
             v = it[1]
             forms = ['"', "'"]
@@ -262,3 +296,70 @@ def g_selector(r):
     for _ in range(r.choice([0, 0, 0, 1, 2])):
         items += [('gap',), ('p', ','), ('gap',)] + g_complex(r)
     return items + [('gap',)]
+
+
+# ---------------------------------------------------------------------------------------------
+# custom pseudo-classes: a table name -> definition (item sequences) and a pattern that refers to it
+# ---------------------------------------------------------------------------------------------
+# names without the colon; no two of them are equal after ASCII lower-casing
+CUSTOM_NAMES = ['--a', '--Ab', '--x-y', '--B2', '--def', '--é', '--中', '--a.b', '--c d', '---', '--_u', '--1a', '--q:r',
+                '--G', '--Z9z', '--', '--\x7f', '--\x80', '--FACE', '--kelvin', '--É', '--h\\i', '--Dd-E', '--mIxEd']
+DOC_TAGS = ['div', 'p', 'span', 'a', 'li', 'ul', 'b']
+
+
+def g_doc_def(r):
+    """A short definition that is likely to select something in the generated probe documents."""
+    def comp():
+        x = r.random()
+        if x < 0.45:
+            return [('ident', r.choice(DOC_TAGS))]
+        if x < 0.6:
+            return [('p', '.'), ('ident', r.choice(['c1', 'c2', 'c3']))]
+        if x < 0.7:
+            return [('p', '#'), ('ident', r.choice(['i1', 'i2', 'i3', 'x']))]
+        if x < 0.8:
+            return [('p', '*')]
+        if x < 0.9:
+            return [('kw', r.choice([':first-child', ':last-child', ':only-child', ':empty', ':root']))]
+        return [('p', '['), ('gap',), ('ident', r.choice(['title', 'data-x', 'href', 'rel'])), ('gap',), ('p', ']')]
+    items = [('gap',)] + comp()
+    for _ in range(r.choice([0, 0, 1])):
+        c = r.choice([' ', '>', '+', '~'])
+        items += ([('desc',)] if c == ' ' else [('gap',), ('p', c), ('gap',)]) + comp()
+    if r.random() < 0.25:
+        items += [('gap',), ('p', ','), ('gap',)] + comp()
+    return items + [('gap',)]
+
+
+def add_refs(r, items, names, n=1):
+    """Insert n references to custom names at places where a pseudo-class may stand: in front of
+    another pseudo-class (at any nesting depth) or at the end of the last compound selector."""
+    items = list(items)
+    for _ in range(n):
+        slots = [i for i, it in enumerate(items) if it[0] == 'kw' and it[1].startswith(':')]
+        slots.append(len(items) - 1 if items and items[-1] == ('gap',) else len(items))
+        items.insert(r.choice(slots), ('cname', r.choice(names)))
+    return items
+
+
+def g_custom_case(r, names=None):
+    """(table, pattern): table = [(name, definition items)], a definition may refer to names defined
+    before it (chains, no cycles); the pattern refers to at least one name of the table."""
+    pool = list(names or CUSTOM_NAMES)
+    r.shuffle(pool)
+    chosen = pool[:r.choice([1, 1, 2, 3])]
+    table = []
+    for i, nm in enumerate(chosen):
+        d = g_doc_def(r) if r.random() < 0.6 else g_selector(r)
+        if i and r.random() < 0.6:
+            d = add_refs(r, d, chosen[:i], 1)
+        table.append((nm, d))
+    x = r.random()
+    if x < 0.35:
+        pat = [('gap',)] + ([('ident', r.choice(DOC_TAGS))] if r.random() < 0.5 else []) + [('cname', chosen[-1])] + [('gap',)]
+    elif x < 0.6:
+        pat = [('gap',), ('kw', r.choice([':not', ':is', ':where', ':has'])), ('p', '('), ('gap',), ('cname', chosen[-1]),
+               ('gap',), ('p', ')'), ('gap',)]
+    else:
+        pat = add_refs(r, g_selector(r) if r.random() < 0.5 else g_doc_def(r), chosen, r.choice([1, 1, 2]))
+    return table, pat
